@@ -12,7 +12,7 @@ Extraction "extract/model.ml"
   Expr.e_val Expr.e_var Expr.eval Expr.e_add Expr.e_mul Expr.e_neg Expr.e_half Expr.e_normalize
   Expr.e_is_zero Expr.e_add_count Expr.e_op_count Expr.e_constant Expr.e_inc_of Expr.e_prod_inc_of
   Expr.e_const_inc_of Expr.e_prod_of Expr.e_constant_part Expr.e_identity Expr.e_variables
-  Expr.e_split_along Expr.e_symb_evaluate
+  Expr.e_split_along Expr.e_symb_evaluate Expr.shape_ok_b
   Inplace.ip_run
   IR.ir_run IR.finished_flag
   BC.bc_run
